@@ -1,8 +1,11 @@
 #!/usr/bin/env python3
-"""tools/benigneval.py C03 [C04 ...] — take the behaviour-preserving refactorings sub-agents left in /tmp/mut/<prop>/BENIGN/<n>/
-(patch.diff, demo.sh, meta.json), re-confirm each in the scratch worktree (builds, 72 tests pass, its sanity demo passes with and
-without the patch), run all 20 checks against it with tools/seedrun.py, and file the confirmed ones as
-/verif/selftest/benign/r<prop>-<n>.diff (+ .json with the agent's equivalence argument and which checks, if any, raised an alarm)."""
+"""tools/benigneval.py [--confirm-only | --check-only] C03 [C04 ...]
+Take the behaviour-preserving refactorings sub-agents left in /tmp/mut/<prop>/BENIGN/<n>/ (patch.diff, demo.sh, meta.json).
+Stage 1 (--confirm-only; one process per property may run in parallel, only the scratch worktree is touched): re-confirm each
+one there - it builds, the 72 tests pass, its sanity demonstration passes with and without the patch - and leave confirmed.json.
+Stage 2 (--check-only; serial, each confirmed patch is applied to /repo in turn by tools/seedrun.py and reverted): run all 20
+checks and file the patch as /verif/selftest/benign/r<prop>-<n>.diff (+ .json with the agent's equivalence argument and
+which checks, if any, raised an alarm). Without a flag both stages run."""
 import json, os, shutil, subprocess, sys
 ROOT = os.path.dirname(os.path.dirname(os.path.abspath(__file__)))
 
@@ -13,6 +16,8 @@ def sh(cmd, cwd=None, timeout=1800):
 
 
 def main():
+    confirm_only = "--confirm-only" in sys.argv
+    check_only = "--check-only" in sys.argv
     for prop in [a for a in sys.argv[1:] if a.startswith("C")]:
         wt = "/tmp/mut/%s" % prop
         bdir = os.path.join(wt, "BENIGN")
@@ -27,22 +32,30 @@ def main():
                 rec.update(json.load(open(os.path.join(md, "meta.json"))))
             except Exception as e:
                 rec["meta_error"] = str(e)
-            sh("git checkout -- . && git clean -fdq -- src tests", cwd=wt)
-            rc, o = sh("git apply %s" % patch, cwd=wt)
-            if rc != 0:
-                print(json.dumps({"id": rid, "confirmed": False, "why": "patch does not apply: " + o[-200:]})); continue
-            sh("cargo build --offline 2>&1 | tail -3", cwd=wt)
-            rc_t, o_t = sh("cargo test --offline 2>&1 | grep -E '^test result|FAILED|panicked|error' | head -12", cwd=wt)
-            tests_ok = "FAILED" not in o_t and "error" not in o_t and o_t.count("test result: ok") >= 4
-            rc_d1, o_d1 = sh("bash %s" % os.path.join(md, "demo.sh"), cwd=wt, timeout=900)
-            sh("git checkout -- . && git clean -fdq -- src tests", cwd=wt)
-            sh("cargo build --offline 2>&1 | tail -1", cwd=wt)
-            rc_d0, o_d0 = sh("bash %s" % os.path.join(md, "demo.sh"), cwd=wt, timeout=900)
-            confirmed = tests_ok and rc_d1 == 0 and rc_d0 == 0
+            cf = os.path.join(md, "confirmed.json")
+            if check_only and os.path.exists(cf):
+                c = json.load(open(cf))
+                confirmed, tests_ok, rc_d1, rc_d0 = c["confirmed"], c["tests_ok"], c["demo"][0], c["demo"][1]
+                rec["ran"] = c["ran"]
+            else:
+                sh("git checkout -- . && git clean -fdq -- src tests", cwd=wt)
+                rc, o = sh("git apply %s" % patch, cwd=wt)
+                if rc != 0:
+                    print(json.dumps({"id": rid, "confirmed": False, "why": "patch does not apply: " + o[-200:]}))
+                    continue
+                sh("cargo build --offline 2>&1 | tail -3", cwd=wt)
+                rc_t, o_t = sh("cargo test --offline 2>&1 | grep -E '^test result|FAILED|panicked|error' | head -12", cwd=wt)
+                tests_ok = "FAILED" not in o_t and "error" not in o_t and o_t.count("test result: ok") >= 4
+                rc_d1, o_d1 = sh("bash %s" % os.path.join(md, "demo.sh"), cwd=wt, timeout=1500)
+                sh("git checkout -- . && git clean -fdq -- src tests", cwd=wt)
+                sh("cargo build --offline 2>&1 | tail -1", cwd=wt)
+                rc_d0, o_d0 = sh("bash %s" % os.path.join(md, "demo.sh"), cwd=wt, timeout=1500)
+                confirmed = tests_ok and rc_d1 == 0 and rc_d0 == 0
+                rec["ran"] = {"tests_with_patch": o_t.strip().splitlines()[:6], "demo_exit_with_patch": rc_d1, "demo_exit_clean": rc_d0}
+                json.dump({"confirmed": confirmed, "tests_ok": tests_ok, "demo": [rc_d1, rc_d0], "ran": rec["ran"]}, open(cf, "w"))
             rec["confirmed"] = confirmed
-            rec["ran"] = {"tests_with_patch": o_t.strip().splitlines()[:6], "demo_exit_with_patch": rc_d1, "demo_exit_clean": rc_d0}
             fired = None
-            if confirmed:
+            if confirmed and not confirm_only:
                 rc_s, o_s = sh("%s %s" % (os.path.join(ROOT, "tools", "seedrun.py"), patch), cwd=ROOT, timeout=1800)
                 try:
                     fired = json.loads(o_s[o_s.index('{\n "patch"'):])["fired"]
@@ -53,7 +66,7 @@ def main():
                 shutil.copy(patch, out + ".diff")
                 json.dump(rec, open(out + ".json", "w"), indent=1)
             print(json.dumps({"id": rid, "confirmed": confirmed, "tests_ok": tests_ok, "demo": [rc_d1, rc_d0],
-                              "fired": fired if isinstance(fired, dict) else None, "summary": rec.get("summary", "")[:120]})[:1500])
+                              "fired": sorted(fired) if isinstance(fired, dict) else None, "summary": rec.get("summary", "")[:120]}))
             sys.stdout.flush()
 
 
